@@ -100,7 +100,10 @@ def body_messages(body: str, rid: Any) -> List[dict]:
         # N notifications followed by the response, all in ONE body: more than the read stream buffers
         n = int(body.split("-")[1])
         return [{**j, "method": "notifications/message", "params": {"i": i}} for i in range(n)] + [R]
-    return {"resp": [R], "err": [E], "notifs+resp": [N1, N2, R], "wrong-id": [W], "batch": [N1, R]}[body]
+    return {"resp": [R], "err": [E], "notifs+resp": [N1, N2, R], "wrong-id": [W], "batch": [N1, R],
+            # messages BEHIND the response to the POSTed request are part of the body like any other
+            "resp+notifs": [R, N1, N2], "notif+resp+notif": [N1, R, N2], "err+notif": [E, N1], "resp+other-response": [R, W],
+            "batch-resp-first": [R, N1]}[body]
 
 
 PREFIXES = ["none", "comment-block", "typed-event-without-data", "other-typed-event", "retry-only-block"]
@@ -259,7 +262,21 @@ def invalid_item(kind: str, rid: Any) -> Any:
             "id-is-an-object": {"jsonrpc": "2.0", "id": {"v": 1}, "result": {}}}[kind]
 
 
-BEHAVIOURS = behaviours() + behaviours_error_objects() + behaviours_json_content_types() + behaviours_invalid_items()
+def behaviours_after_response() -> List[Dict[str, Any]]:
+    bs: List[Dict[str, Any]] = []
+    encs = ["none/event-message/data-space/lf", "none/event-message/data-space/crlf", "none/no-event-field/data-no-space/lf",
+            "comment-block/id-retry-fields/multi-data/crlf", "no-final-blank", "mixed"]
+    for status in (200, 202):
+        for body in ("resp+notifs", "notif+resp+notif", "err+notif", "resp+other-response"):
+            for enc in encs:
+                bs.append({"status": status, "ctype": "sse", "body": body, "enc": enc})
+        bs.append({"status": status, "ctype": "sse", "body": "batch-resp-first", "enc": encs[0]})
+        bs.append({"status": status, "ctype": "json", "body": "batch-resp-first"})
+    return bs
+
+
+BEHAVIOURS = behaviours() + behaviours_error_objects() + behaviours_json_content_types() + behaviours_invalid_items() + \
+    behaviours_after_response()
 OK_B = {"status": 200, "ctype": "json", "body": "resp"}
 CT = {"json": "application/json", "sse": "text/event-stream", "text": "text/plain; charset=utf-8"}
 
@@ -302,7 +319,7 @@ def render(b: Dict[str, Any], rid: Any) -> Tuple[bytes, Optional[str]]:
             texts = [json.dumps(m, ensure_ascii=False) for m in msgs]
             out = "".join(f"{head}data: {t}\n\n" for t in texts[:-1]) + f"{head}data: {texts[-1]}" + SSE_ENDINGS[b["ending"]]
             return out.encode("utf-8"), ctype
-        return sse_encode(msgs, b.get("enc", "canonical"), body == "batch").encode("utf-8"), ctype
+        return sse_encode(msgs, b.get("enc", "canonical"), body in ("batch", "batch-resp-first")).encode("utf-8"), ctype
     if body.startswith("errobj:"):
         _, form, shape = body.split(":")
         obj: Dict[str, Any] = {"error": ERROBJ_SHAPES[shape]}
@@ -321,7 +338,7 @@ def render(b: Dict[str, Any], rid: Any) -> Tuple[bytes, Optional[str]]:
     if b.get("ct_param") and ctype:
         ctype = f"{ctype}; {b['ct_param']}"
     bom = b"\xef\xbb\xbf" if b.get("bom") else b""
-    if body == "batch" or body.startswith("burst-"):
+    if body in ("batch", "batch-resp-first") or body.startswith("burst-"):
         return bom + json.dumps(msgs, ensure_ascii=False).encode("utf-8"), ctype
     return bom + json.dumps(msgs[0], ensure_ascii=False).encode("utf-8"), ctype
 
